@@ -10,6 +10,11 @@ def md (c impl : List String) : Option Verdict := do
   let (i, min, max, draw) ← P.run (do
     let i ← P.nat; let mn ← P.int; let mx ← P.int; let d ← P.int; pure (i, mn, mx, d)) c
   let d := multicastDelay draw i min max
+  let nt0 := decide (min < max) || (decide (i < 4) && decide (roundDur max second > 14 * second))
+  -- "Choosing the wait never fails": a panic of the implementation is an oracle failure
+  if impl == ["panic"] then
+    return { model := toString d, oracle := false, nontrivial := nt0,
+             note := "choosing the wait panicked (the property: choosing the wait never fails for any accepted min/max pair)" }
   let implD ← P.run P.int impl
   let nt := decide (min < max) || (decide (i < 4) && decide (roundDur max second > 14 * second))
   pure { model := toString d, oracle := Spec.C05.holds i min max implD, nontrivial := nt }
